@@ -706,14 +706,15 @@ def stepAct (s : State) (a : Nat) : Option (State × Obs) :=
         some (s1.goto a next, .csR f)
   | .pfBlocked f =>
       if s.taskWoken.contains t then some (({ s with taskWoken := s.taskWoken.filter (· != t) }).goto a (.pfPoll f), .silent) else none
-  | .pollReady _ =>
+  | .pollReady f =>
       match act.mode with
-      | .await => some (s.goto a .ret, .silent)
+      -- the completed future is dropped by whoever awaited it (block_on / the poll-once helper)
+      | .await => some (s.goto a (.fdDrop f .ret), .silent)
       | .sfQueue u => some (s.goto a (.sfRecv u), .silent)
       | .sfSched u =>
         match s.sfs[u]? with
         | none => none
-        | some sf => some ((s.setSf u { sf with stage := .completed }).setAct a { act with pc := .ret, result := some 0 }, .silent)
+        | some sf => some ((s.setSf u { sf with stage := .completed }).setAct a { act with pc := .fdDrop sf.f .ret, result := some 0 }, .silent)
   | .pollPending f =>
       match act.mode with
       | .await =>
@@ -769,8 +770,23 @@ def stepAct (s : State) (a : Nat) : Option (State × Obs) :=
       | some sf =>
         -- the state field goes first: the queue_ready receiver (with the waker registered on it) or the user future
         -- (with the waker it registered with its gate) is destroyed
-        if sf.userBegun && !sf.userEnded then some ((s.setSf u { sf with userEnded := true, userReg := none, readyWaker := none }).goto a (.sfDropDone u), .cancel sf.op)
-        else some ((s.setSf u { sf with userReg := none, readyWaker := none }).goto a (.sfDropDone u), .silent)
+        -- ... then the scheduler future (`fdDrop`), then the completion sender
+        if sf.userBegun && !sf.userEnded then some ((s.setSf u { sf with userEnded := true, userReg := none, readyWaker := none }).goto a (.fdDrop sf.f (.sfDropDone u)), .cancel sf.op)
+        else some ((s.setSf u { sf with userReg := none, readyWaker := none }).goto a (.fdDrop sf.f (.sfDropDone u)), .silent)
+  | .fdDrop f k =>
+      match s.futs[f]? with
+      | none => none
+      | some fu =>
+        match s.qs[fu.q]? with
+        | none => none
+        | some v =>
+          -- the lock is taken only by a future whose `draining` flag is set (`futureDropGuarded`); the flag can be stale
+          -- (a later poll found the result already there), so the queue is handed back only from waitingForPoll(f)
+          if fu.draining then
+            let r := futureDropDecide f v.state
+            if r.2 then some ((s.setQ fu.q { v with state := r.1 }).goto a (.rqCs fu.q k), .csQ fu.q)
+            else some (s.goto a k, .csQ fu.q)
+          else some (s.goto a k, .silent)
   | .sfDropDone u =>
       match s.sfs[u]? with
       | none => none
@@ -801,7 +817,7 @@ def stepAct (s : State) (a : Nat) : Option (State × Obs) :=
       | none => none
       | some fu =>
         if fu.res == .ok || fu.res == .canceled then
-          some ((s.setFut f { fu with res := .returned }).setAct a { act with pc := .dqIdle f q, result := some (if fu.res == .ok then 0 else 2) }, .csR f)
+          some ((s.setFut f { fu with res := .returned, draining := false }).setAct a { act with pc := .dqIdle f q, result := some (if fu.res == .ok then 0 else 2) }, .csR f)
         else some (s.goto a (.dqDequeue f q), .csR f)
   | .dqDequeue f q =>
       let (s1, got) := s.dequeue q a
@@ -817,14 +833,14 @@ def stepAct (s : State) (a : Nat) : Option (State × Obs) :=
       | none => none
       | some fu =>
         if fu.res == .ok || fu.res == .canceled then
-          some ((s.setFut f { fu with res := .returned }).setAct a { act with pc := .dqSetWfw f l q, result := some (if fu.res == .ok then 0 else 2) }, .csR f)
+          some ((s.setFut f { fu with res := .returned, draining := false }).setAct a { act with pc := .dqSetWfw f l q, result := some (if fu.res == .ok then 0 else 2) }, .csR f)
         else some (s.goto a (.dqStore f l q), .csR f)
   | .dqSetWfw f l q =>
       some (((s.setQState q .waitingForWake).setHolder q none).goto a (.dqWakeWith f l (.queue q) (.pollReady f)), .csQ q)
   | .dqStore f l q =>
       match s.futs[f]? with
       | none => none
-      | some fu => some ((s.setFut f { fu with waker := some (.task t) }).goto a (.dqSetWfp f l q), .csR f)
+      | some fu => some ((s.setFut f { fu with waker := some (.task t), draining := true }).goto a (.dqSetWfp f l q), .csR f)
   | .dqSetWfp f l q =>
       let d := s.doubles.length
       let s1 := { s with doubles := s.doubles ++ [some (Waker.queue q, Waker.task t)] }
@@ -839,7 +855,7 @@ def stepAct (s : State) (a : Nat) : Option (State × Obs) :=
   | .dqStore2 f q =>
       match s.futs[f]? with
       | none => none
-      | some fu => some ((s.setFut f { fu with waker := some (.task t) }).goto a (.dqIdle2 f q), .csR f)
+      | some fu => some ((s.setFut f { fu with waker := some (.task t), draining := false }).goto a (.dqIdle2 f q), .csR f)
   | .dqIdle2 f q => some (((s.setQState q .idle).setHolder q none).goto a (.rqCs q (.pollPending f)), .csQ q)
   | .dqIdle f q => some (((s.setQState q .idle).setHolder q none).goto a (.rqCs q (.pollReady f)), .csQ q)
   | .fsTake f =>
@@ -947,7 +963,9 @@ def invoke (s : State) (t : Nat) (parent : Option Nat) (c : Call) : Option (Stat
       | some u => some (addAct s t parent (.sfDrop u))
       | none =>
         -- dropping the resumer obtained from a suspend future resumes the queue (the oneshot is cancelled)
-        if s.isSuspendOp o then some (addAct s t parent (.resumeSend o .ret)) else some (addAct s t parent .ret)
+        match s.futOf o with
+        | some f => if s.isSuspendOp o then some (addAct s t parent (.fdDrop f (.resumeSend o .ret))) else some (addAct s t parent (.fdDrop f .ret))
+        | none => if s.isSuspendOp o then some (addAct s t parent (.resumeSend o .ret)) else some (addAct s t parent .ret)
   | .openGate g =>
       match s.gates[g]? with
       | some gt => some (addAct (s.setGate g { gt with isOpen := true }) t parent (.openSend g .ret))
